@@ -25,6 +25,7 @@ type World struct {
 	ByName  map[string][]*packages.Package
 	AllPkgs map[string]*packages.Package
 	RepoDir string
+	fnCache map[string]*ssa.Function
 }
 
 func loadWorld(repoDir string, patterns []string) (*World, error) {
